@@ -50,6 +50,12 @@ Theorem C13_linearizable : forall s, reachable ms_init ms_step s ->
 Proof. exact linearizable. Qed.
 Print Assumptions C13_linearizable.
 
+(* the abstract queue is a function of the concrete state alone: the values found by
+   following the next pointers from head, without the dummy *)
+Theorem C13_absq_concrete : forall s, reachable ms_init ms_step s -> absq s = queue_of_heap s.
+Proof. exact absq_concrete. Qed.
+Print Assumptions C13_absq_concrete.
+
 (* the abstract queue evolves as the specification: a step leaves it unchanged or applies
    exactly one linearization event of the stepping thread to it *)
 Theorem C13_absq_step : forall s l s', reachable ms_init ms_step s -> ms_step s l s' ->
@@ -180,16 +186,18 @@ Example C13_ex_lag :
   reachable ms_init ms_step (fst r) /\ absq (fst r) = [5] /\ len (fst r) = 0 /\ total_lag (fst r) = -1.
 Proof. split; [apply ms_run_reachable|]. vm_compute. repeat split; reflexivity. Qed.
 
-(* a quiescent state with two queued tasks of one producer and one dequeued: hypotheses of
-   length_quiescent, producer_fifo, never_invented are satisfiable *)
+(* a quiescent state after three Enqueues of one producer and two Dequeues: the hypotheses of
+   length_quiescent, producer_fifo (a = 1, b = 2), never_invented are satisfiable *)
 Definition ex_seq : list (tid * choice) :=
   [(0%nat, CEnq 5)] ++ repeat (0%nat, CStep) 6 ++ [(0%nat, CEnq 6)] ++ repeat (0%nat, CStep) 6 ++
-  [(0%nat, CEnq 8)] ++ repeat (0%nat, CStep) 6 ++ [(1%nat, CDeq)] ++ repeat (1%nat, CStep) 6.
+  [(0%nat, CEnq 8)] ++ repeat (0%nat, CStep) 6 ++ [(1%nat, CDeq)] ++ repeat (1%nat, CStep) 6 ++
+  [(1%nat, CDeq)] ++ repeat (1%nat, CStep) 6.
 
 Example C13_ex_quiescent :
   let s := fst (run ms_fstep init_state ex_seq) in
-  reachable ms_init ms_step s /\ quiescent_b s = true /\ absq s = [6; 8] /\ q_length s = 2 /\
-  q_isempty s = false /\
-  g_hist s = [RetDeq 1 (Some 5); LinDeq 1 1 5; CallDeq 1; RetEnq 0; LinEnq 0 3 8; CallEnq 0 3 8;
+  reachable ms_init ms_step s /\ quiescent_b s = true /\ absq s = [8] /\ q_length s = 1 /\
+  q_isempty s = false /\ queue_of_heap s = [8] /\
+  g_hist s = [RetDeq 1 (Some 6); LinDeq 1 2 6; CallDeq 1; RetDeq 1 (Some 5); LinDeq 1 1 5; CallDeq 1;
+              RetEnq 0; LinEnq 0 3 8; CallEnq 0 3 8;
               RetEnq 0; LinEnq 0 2 6; CallEnq 0 2 6; RetEnq 0; LinEnq 0 1 5; CallEnq 0 1 5].
 Proof. split; [apply ms_run_reachable|]. vm_compute. repeat split; reflexivity. Qed.
